@@ -227,4 +227,287 @@ theorem filesOf_mem (units : Array CUnit) (path u : Nat) (fl : Array Nat) (h : (
         exact ⟨un, f, hu, by simpa using hc, h2.symm⟩
     · rw [if_neg hc] at hf; cases hf
 
+/-! ## the other direction: a line that HAS an is_stmt row (in any unit) always yields a place
+
+These lemmas make the `line + 1` fallback a GLOBAL decision in the theorems: the second pass runs only when the
+first pass selected nothing, and the first pass selects nothing only when NO (unit, file) pair of the path has an
+is_stmt row of the line. -/
+
+theorem suitableLoop_ne_of_acc (rows : Array Row) (fl : Array Nat) (needle : Nat) : ∀ fuel i acc,
+    acc ≠ [] → suitableLoop rows fl needle fuel i acc ≠ [] := by
+  intro fuel
+  induction fuel with
+  | zero => intro i acc h; simpa [suitableLoop] using h
+  | succ fuel ih =>
+    intro i acc hacc
+    unfold suitableLoop
+    cases h1 : fl[i]? with
+    | none => exact hacc
+    | some lineIdx =>
+      simp only []
+      cases h2 : rows[lineIdx]? with
+      | none => exact hacc
+      | some r =>
+        simp only []
+        cases acc with
+        | nil => exact absurd rfl hacc
+        | cons first rest =>
+          simp only []
+          by_cases hc : (r.line != first.2.line || r.col != first.2.col || r.pe != first.2.pe || r.eb != first.2.eb
+              || r.es != first.2.es || !r.stmt) = true
+          · rw [if_pos hc]; exact ih _ _ hacc
+          · rw [if_neg hc]; exact ih _ _ (by simp)
+
+/-- every index listed by `fl` is a stored row -/
+def ValidIdx (rows : Array Row) (fl : Array Nat) : Prop :=
+  ∀ (t idx : Nat), fl[t]? = some idx → ∃ r : Row, rows[idx]? = some r
+
+theorem suitableLoop_complete (rows : Array Row) (fl : Array Nat) (needle : Nat) (hv : ValidIdx rows fl) :
+    ∀ fuel i, fl.size ≤ i + fuel →
+      (∃ (t idx : Nat) (r : Row), i ≤ t ∧ fl[t]? = some idx ∧ rows[idx]? = some r ∧ r.stmt = true ∧ r.line = needle) →
+      suitableLoop rows fl needle fuel i [] ≠ [] := by
+  intro fuel
+  induction fuel with
+  | zero =>
+    intro i hsz ⟨t, idx, r, hit, ht, _, _, _⟩
+    have := lt_of_getElem? ht
+    omega
+  | succ fuel ih =>
+    intro i hsz ⟨t, idx, r, hit, ht, hr, hst, hl⟩
+    unfold suitableLoop
+    cases h1 : fl[i]? with
+    | none =>
+      exfalso
+      have h1' : fl.size ≤ i := by
+        rcases Nat.lt_or_ge i fl.size with h | h
+        · obtain ⟨x, hx⟩ := getElem?_of_lt fl h; rw [hx] at h1; cases h1
+        · exact h
+      have := lt_of_getElem? ht
+      omega
+    | some lineIdx =>
+      simp only []
+      cases h2 : rows[lineIdx]? with
+      | none => obtain ⟨x, hx⟩ := hv i lineIdx h1; rw [hx] at h2; cases h2
+      | some r0 =>
+        simp only []
+        by_cases hc : (r0.line != needle || !r0.stmt) = true
+        · rw [if_pos hc]
+          have hne : t ≠ i := by
+            intro he; subst he
+            rw [h1] at ht; injection ht with ht; subst ht
+            rw [h2] at hr; injection hr with hr; subst hr
+            simp [hst, hl] at hc
+          exact ih (i + 1) (by omega) ⟨t, idx, r, by omega, ht, hr, hst, hl⟩
+        · rw [if_neg hc]
+          cases hpa : peAhead rows fl r0.line (fl.size - i) (i + 1) (lineIdx, i) with
+          | mk li i' =>
+            simp only []
+            cases h3 : rows[li]? with
+            | some r' => exact suitableLoop_ne_of_acc rows fl needle fuel (i' + 1) [(li, r')] (by simp)
+            | none =>
+              exfalso
+              rcases peAhead_spec rows fl r0.line (fl.size - i) (i + 1) (lineIdx, i) with he | ⟨lr, _, e2, _, _⟩
+              · rw [hpa] at he
+                injection he with he1 _
+                subst he1
+                rw [h2] at h3; cases h3
+              · rw [hpa] at e2
+                simp only [] at e2
+                rw [h3] at e2; cases e2
+
+theorem suitablePlaces_complete (rows : Array Row) (fl : Array Nat) (needle : Nat) (hv : ValidIdx rows fl)
+    (t idx : Nat) (r : Row) (ht : fl[t]? = some idx) (hr : rows[idx]? = some r) (hst : r.stmt = true)
+    (hl : r.line = needle) : suitablePlaces rows fl needle ≠ [] :=
+  suitableLoop_complete rows fl needle hv fl.size 0 (by omega) ⟨t, idx, r, by omega, ht, hr, hst, hl⟩
+
+theorem dedup_res_ne (units : Array CUnit) (u : Nat) : ∀ places seen res,
+    res ≠ [] → (dedup units u places seen res).2 ≠ [] := by
+  intro places
+  induction places with
+  | nil => intro seen res h; simpa [dedup] using h
+  | cons q rest ih =>
+    intro seen res h
+    obtain ⟨i, r⟩ := q
+    unfold dedup
+    cases hk : keyAt units r.addr with
+    | none => simp only []; exact ih _ _ (by simp)
+    | some k =>
+      simp only []
+      by_cases hc : seen.contains k = true
+      · rw [if_pos hc]; exact ih _ _ h
+      · rw [if_neg hc]; exact ih _ _ (by simp)
+
+/-- with nothing seen and nothing selected so far, a non-empty candidate list always selects something -/
+theorem dedup_nil_ne (units : Array CUnit) (u : Nat) (places : List (Nat × Row)) (h : places ≠ []) :
+    (dedup units u places [] []).2 ≠ [] := by
+  cases places with
+  | nil => exact absurd rfl h
+  | cons q rest =>
+    obtain ⟨i, r⟩ := q
+    unfold dedup
+    cases hk : keyAt units r.addr with
+    | none => simp only []; exact dedup_res_ne units u rest _ _ (by simp)
+    | some k =>
+      simp only []
+      have : ([] : List Key).contains k = false := by simp
+      rw [this]
+      simp only [Bool.false_eq_true, if_false]
+      exact dedup_res_ne units u rest _ _ (by simp)
+
+theorem closestPass_res_ne (units : Array CUnit) (needle : Nat) : ∀ files seen res,
+    res ≠ [] → (closestPass units needle files seen res).2 ≠ [] := by
+  intro files
+  induction files with
+  | nil => intro seen res h; simpa [closestPass] using h
+  | cons f rest ih =>
+    intro seen res h
+    obtain ⟨u, fl⟩ := f
+    unfold closestPass
+    cases hu : units[u]? with
+    | none => simp only []; exact ih _ _ h
+    | some un =>
+      simp only []
+      exact ih _ _ (dedup_res_ne units u _ seen res h)
+
+/-- a pass that starts with nothing and selects nothing had no candidate in ANY (unit, file) pair -/
+theorem closestPass_nil (units : Array CUnit) (needle : Nat) : ∀ files,
+    (closestPass units needle files [] []).2 = [] →
+    ∀ (u : Nat) (fl : Array Nat) (un : CUnit), (u, fl) ∈ files → units[u]? = some un →
+      suitablePlaces un.rows fl needle = [] := by
+  intro files
+  induction files with
+  | nil => intro _ u fl un hm; cases hm
+  | cons f rest ih =>
+    intro h u fl un hm hun
+    obtain ⟨u0, fl0⟩ := f
+    unfold closestPass at h
+    cases hu : units[u0]? with
+    | none =>
+      rw [hu] at h; simp only [] at h
+      rcases List.mem_cons.mp hm with he | hm'
+      · injection he with e1 e2; subst e1; rw [hu] at hun; cases hun
+      · exact ih h u fl un hm' hun
+    | some un0 =>
+      rw [hu] at h; simp only [] at h
+      have hsp : suitablePlaces un0.rows fl0 needle = [] := by
+        cases hsp : suitablePlaces un0.rows fl0 needle with
+        | nil => rfl
+        | cons a b =>
+          exfalso
+          have hne := dedup_nil_ne units u0 (suitablePlaces un0.rows fl0 needle) (by rw [hsp]; simp)
+          exact closestPass_res_ne units needle rest _ _ hne h
+      rw [hsp] at h
+      simp only [dedup] at h
+      rcases List.mem_cons.mp hm with he | hm'
+      · injection he with e1 e2; subst e1; subst e2
+        rw [hu] at hun; injection hun with hun; subst hun
+        exact hsp
+      · exact ih h u fl un hm' hun
+
+theorem fileLinesGo_acc (rows : Array Row) (fidx : Nat) : ∀ n acc i, i ∈ acc → i ∈ fileLinesGo rows fidx n acc := by
+  intro n
+  induction n with
+  | zero => intro acc i h; simpa [fileLinesGo] using h
+  | succ n ih =>
+    intro acc i h
+    unfold fileLinesGo
+    cases hr : rows[n]? with
+    | none => exact ih _ i h
+    | some r =>
+      simp only []
+      apply ih
+      by_cases hc : (r.file == fidx) = true
+      · rw [if_pos hc]; exact List.mem_cons_of_mem _ h
+      · rw [if_neg hc]; exact h
+
+theorem fileLinesGo_complete (rows : Array Row) (fidx : Nat) : ∀ n acc (i : Nat) (r : Row),
+    i < n → rows[i]? = some r → r.file = fidx → i ∈ fileLinesGo rows fidx n acc := by
+  intro n
+  induction n with
+  | zero => intro acc i r h; omega
+  | succ n ih =>
+    intro acc i r hi hr hf
+    unfold fileLinesGo
+    by_cases he : i = n
+    · subst he
+      rw [hr]; simp only []
+      apply fileLinesGo_acc
+      have : (r.file == fidx) = true := by simp [hf]
+      rw [if_pos this]; exact List.mem_cons_self ..
+    · cases hn : rows[n]? with
+      | none => exact ih _ i r (by omega) hr hf
+      | some r0 => simp only []; exact ih _ i r (by omega) hr hf
+
+/-- every stored row of file index `f` is listed by `fileLines rows f` -/
+theorem fileLines_complete (rows : Array Row) (fidx i : Nat) (r : Row) (hr : rows[i]? = some r) (hf : r.file = fidx) :
+    ∃ t : Nat, (fileLines rows fidx)[t]? = some i := by
+  have hm : i ∈ fileLinesGo rows fidx rows.size [] := fileLinesGo_complete rows fidx _ _ i r (lt_of_getElem? hr) hr hf
+  have hm' : i ∈ (fileLines rows fidx).toList := by unfold fileLines; simpa using hm
+  obtain ⟨t, ht⟩ := List.getElem?_of_mem hm'
+  exact ⟨t, by simpa using ht⟩
+
+theorem fileLines_valid (rows : Array Row) (fidx : Nat) : ValidIdx rows (fileLines rows fidx) := by
+  intro t idx h
+  obtain ⟨r, hr, _⟩ := fileLines_mem rows fidx t idx h
+  exact ⟨r, hr⟩
+
+/-- every (unit, file index) pair whose file is `path` and that has at least one row is visited -/
+theorem filesOf_complete (units : Array CUnit) (path u f : Nat) (un : CUnit) (hu : units[u]? = some un)
+    (hf : un.files[f]? = some path) (hne : (fileLines un.rows f).isEmpty = false) :
+    (u, fileLines un.rows f) ∈ filesOf units path := by
+  unfold filesOf
+  rw [List.mem_flatMap]
+  refine ⟨u, List.mem_range.mpr (lt_of_getElem? hu), ?_⟩
+  rw [hu]; simp only []
+  rw [List.mem_filterMap]
+  refine ⟨f, List.mem_range.mpr (lt_of_getElem? hf), ?_⟩
+  have : (un.files[f]? == some path) = true := by rw [hf]; simp
+  rw [if_pos this]
+  simp [hne]
+
+/-- nothing selected ⇒ nothing recorded in the dedup set: the second pass of `find_closest_place` starts from scratch -/
+theorem dedup_seen_of_nil (units : Array CUnit) (u : Nat) : ∀ places seen res,
+    (dedup units u places seen res).2 = [] → (dedup units u places seen res).1 = seen := by
+  intro places
+  induction places with
+  | nil => intro seen res _; simp [dedup]
+  | cons q rest ih =>
+    intro seen res h
+    obtain ⟨i, r⟩ := q
+    unfold dedup at h ⊢
+    cases hk : keyAt units r.addr with
+    | none =>
+      rw [hk] at h; simp only [] at h ⊢
+      exact absurd h (dedup_res_ne units u rest seen _ (by simp))
+    | some k =>
+      rw [hk] at h; simp only [] at h ⊢
+      by_cases hc : seen.contains k = true
+      · rw [if_pos hc] at h ⊢; exact ih _ _ h
+      · rw [if_neg hc] at h ⊢
+        exact absurd h (dedup_res_ne units u rest _ _ (by simp))
+
+theorem closestPass_seen_of_nil (units : Array CUnit) (needle : Nat) : ∀ files seen,
+    (closestPass units needle files seen []).2 = [] → (closestPass units needle files seen []).1 = seen := by
+  intro files
+  induction files with
+  | nil => intro seen _; simp [closestPass]
+  | cons f rest ih =>
+    intro seen h
+    obtain ⟨u, fl⟩ := f
+    unfold closestPass at h ⊢
+    cases hu : units[u]? with
+    | none => rw [hu] at h; simp only [] at h ⊢; exact ih _ h
+    | some un =>
+      rw [hu] at h; simp only [] at h ⊢
+      cases hd : dedup units u (suitablePlaces un.rows fl needle) seen [] with
+      | mk seen' res' =>
+        rw [hd] at h; simp only [] at h ⊢
+        cases res' with
+        | cons a b => exact absurd h (closestPass_res_ne units needle rest seen' (a :: b) (by simp))
+        | nil =>
+          have hs := dedup_seen_of_nil units u (suitablePlaces un.rows fl needle) seen [] (by rw [hd])
+          rw [hd] at hs; simp only [] at hs
+          subst hs
+          exact ih _ h
+
 end BsVerif.Lines
